@@ -274,6 +274,12 @@ HDR = "Struct M\n    n: number\n    b: boolean\nEnd\nStruct R\n    n: number\n  
 
 
 def program_for(text, kind):
+    if kind == "par2":
+        # two instances of one task are started by the same event; each decides on ITS value of r
+        lit = '{"n": 1, "k": 1, "b": true, "m": {"n": 1, "b": true}}'
+        return (HDR + "Task productionTask\n    Parallel\n        t\n            In\n                R\n                    " + lit +
+                "\n        t\n            In\n                R\n                    " + lit +
+                "\nEnd\nTask t\n    In\n        r: R\n    Condition\n        " + text + "\n    Passed\n        Yes\n    Failed\n        No\nEnd\n")
     if kind == "cond":
         return HDR + "Task productionTask\n    G\n        Out\n            r: R\n    Condition\n        " + text + "\n    Passed\n        Yes\n    Failed\n        No\nEnd\n"
     return HDR + "Task productionTask\n    G\n        Out\n            r: R\n    Loop While " + text + "\n        Yes\n    No\nEnd\n"
@@ -295,7 +301,7 @@ def job_expr(args):
             if e[0] in ("path", "bool"):
                 continue
             break
-        kind = rng.choice(["cond", "cond", "while"])
+        kind = rng.choice(["cond", "cond", "while", "par2"])
         tight = rng.random() < 0.3
         texts = [("min", print_min(e, tight)), ("full", print_full(e))]
         out = {"seed": seed, "ast": e, "kind": kind, "k10": k10_shape(e), "variants": []}
@@ -318,7 +324,7 @@ def job_expr(args):
             rec["valid"] = valid
             rec["out"] = buf.getvalue()[:300]
             if valid:
-                st = process.tasks["productionTask"].statements[1]
+                st = process.tasks["t"].statements[0] if kind == "par2" else process.tasks["productionTask"].statements[1]
                 rec["tree"] = tree_json(st.expression)
                 toks = expr_tokens(text)
                 n_atoms = 0
@@ -333,12 +339,19 @@ def job_expr(args):
                 if label == "min":
                     rec["surface"] = explicit_tree(e, tight, [0])
                 decs = []
-                for v in vals:
-                    decs.append(decide_with_scheduler(impl, prog, v, kind))
+                if kind == "par2":
+                    for i, v in enumerate(vals):
+                        decs.append(decide_par2(impl, prog, v, vals[(i + 1) % len(vals)]))
+                else:
+                    for v in vals:
+                        decs.append(decide_with_scheduler(impl, prog, v, kind))
                 rec["decisions"] = decs
             out["variants"].append(rec)
         out["vals"] = [val_json(v) for v in vals]
-        out["expected"] = [bool(denote(e, v)) for v in vals]
+        if kind == "par2":
+            out["expected"] = [[bool(denote(e, v)), bool(denote(e, vals[(i + 1) % len(vals)]))] for i, v in enumerate(vals)]
+        else:
+            out["expected"] = [bool(denote(e, v)) for v in vals]
         signal.alarm(0)
         return out
     except CaseTimeout:
@@ -400,6 +413,33 @@ def tree_json(x):
     if isinstance(x, list):
         return [tree_json(v) for v in x]
     return x
+
+
+def decide_par2(impl, prog, val_a, val_b):
+    """two task instances started by one event, the execution engine holds a different value of r for each:
+    returns [decision of the first instance, decision of the second]"""
+    va, vb = val_json(val_a)["r"], val_json(val_b)["r"]
+
+    def answers(name, ctx):
+        # test ids: the production task is '0', the two instances of t are '1' and '2'
+        return va if (ctx is not None and ctx.uuid == "1") else vb
+
+    run = impl.Run(prog, ids="test", answers=answers)
+    if run.s is None or not run.valid:
+        return "invalid"
+    for k in ("ts", "ss", "sf", "tf"):
+        run.register(k, 0)
+    c = run.start()
+    if c.get("exc"):
+        return "exc:" + c["exc"]
+    by_ctx = {}
+    for cc in run.calls:
+        for e in cc["out"]:
+            if e[0] == "INV" and e[1] == "ss" and e[2] == 0:
+                by_ctx.setdefault(e[6], e[3] == "Yes")
+    if "1" not in by_ctx or "2" not in by_ctx:
+        return "none"
+    return [by_ctx["1"], by_ctx["2"]]
 
 
 def decide_with_scheduler(impl, prog, val, kind):
@@ -671,7 +711,7 @@ def _run_c13(ctx, pool, res):
                 nontrivial.add(key)
             for val, exp, dec in zip(r["vals"], r["expected"], v["decisions"]):
                 if dec != exp:
-                    _add(res, seen, prop, "wrong_decision" if isinstance(dec, bool) else "decision_" + str(dec).replace(":", "_"),
+                    _add(res, seen, prop, "wrong_decision" if isinstance(dec, (bool, list)) else "decision_" + str(dec).replace(":", "_"),
                          "expression %r (%s, %s parentheses) with %s: the scheduler decides %r, ordinary semantics give %r"
                          % (v["text"], r["kind"], v["label"], json.dumps(val), dec, exp),
                          {"text": v["text"], "kind": r["kind"], "val": val, "expected": exp})
@@ -690,7 +730,7 @@ def _run_c13(ctx, pool, res):
             if "error" in resp:
                 disagreements.append((v["text"], "model error " + resp["error"]))
                 continue
-            if resp.get("decisions") != [d if isinstance(d, bool) else None for d in v["decisions"]]:
+            if r["kind"] != "par2" and resp.get("decisions") != [d if isinstance(d, bool) else None for d in v["decisions"]]:
                 disagreements.append((v["text"], "decisions implementation %r / model %r" % (v["decisions"], resp.get("decisions"))))
             elif resp.get("parsed") != v["indexed"]:
                 disagreements.append((v["text"], "tree: visitor %s / model parser %s" % (json.dumps(v["indexed"])[:200], json.dumps(resp.get("parsed"))[:200])))
